@@ -1,7 +1,7 @@
 (* props/C05.v -- property C05: point and interval scores equal their textbook definitions on every input.
    Statements only; every proof is `exact <lemma>` into coq/proofs/C05.v.  gen_* are the kernels regenerated
    from /repo's current source by tools/py2gallina.py on every run. *)
-From V Require Import lib.Tree gen.Gen_quantile_loss gen.Gen_functions gen.Gen_interval gen.Gen_standard model.C05 proofs.C05 proofs.C05_angular.
+From V Require Import lib.Tree gen.Gen_quantile_loss gen.Gen_functions gen.Gen_interval gen.Gen_standard model.C05 proofs.C05 proofs.C05_angular proofs.C05_rmse.
 
 (* quantile_score's kernel is the pinball loss alpha*max(o-f,0) + (1-alpha)*max(f-o,0), for every rational
    forecast, observation and level (the tie f = o included) *)
@@ -101,6 +101,20 @@ Theorem C05_angular_is_nearest_turn : forall (a b : Q) (n : Z),
   exists r, gen_angular_difference (XFin a) (XFin b) =x= XFin r /\ r <= Qabs (a - b - 360 * inject_Z n).
 Proof. exact angular_is_nearest. Qed.
 Print Assumptions C05_angular_is_nearest_turn.
+
+(* MSE is a non-negative rational (or NaN) for non-negative weights, so RMSE - the host's square root of it - satisfies
+   RMSE >= 0 and RMSE^2 = MSE (the last statement is over the reals and depends on the standard real-number axioms) *)
+Theorem C05_weighted_squared_error_nonneg : forall (f o w : xv) b, xisinf f = false -> xisinf o = false -> nonneg_or_nan w ->
+  nonneg_or_nan (xmul (gen_mse_kernel f o b) w).
+Proof. exact weighted_sq_error_nonneg. Qed.
+Print Assumptions C05_weighted_squared_error_nonneg.
+Theorem C05_mean_of_nonneg_is_nonneg : forall l, (forall v, In v l -> nonneg_or_nan v) -> nonneg_or_nan (nanmean l).
+Proof. exact nanmean_nonneg. Qed.
+Print Assumptions C05_mean_of_nonneg_is_nonneg.
+Theorem C05_rmse_squared_is_mse : forall m : Q, 0 <= m ->
+  (0 <= sqrt (Q2R m) /\ sqrt (Q2R m) * sqrt (Q2R m) = Q2R m)%R.
+Proof. exact rmse_squared_is_mse. Qed.
+Print Assumptions C05_rmse_squared_is_mse.
 
 (* non-vacuity of the guarded statements *)
 Example C05_levels_satisfiable : 0 < 1 # 10 /\ (1 # 10) < 1 /\ 0 < 9 # 10 /\ (9 # 10) < 1.
